@@ -582,6 +582,7 @@ PROPS['C08']['rules'] += [R5.rule_remove_empty_all_axes,
 from . import rules_round6 as R6  # noqa: E402
 PROPS['C02']['rules'] += [R6.rule_accumulator_drop]
 PROPS['C14']['rules'] += [R6.rule_selection_narrowed]
+PROPS['C03']['rules'] += [R6.rule_sniff_agrees]
 PROPS['C14']['rules'].append(partial(
     R6.rule_whitespace_split, rels={'biom/cli/table_subsetter.py',
                                     'biom/parse.py'}))
